@@ -184,6 +184,30 @@ def read_logs(logdir, keys):
     return logs, [k for _, k in sorted(realised)]
 
 
+def _warm_up(g, sigs, fs, f_range, axis):
+    """The group object has been fitted before - to another stack of another shape (not logged): a fit must rebuild everything it exposes."""
+    env = os.environ.pop('BYCVERIF_POOL_LOG', None)
+    try:
+        other = sigs[::-1][:max(1, len(sigs) - 1)] if sigs.ndim == 2 else sigs[::-1, ::-1][:, :max(1, sigs.shape[1] - 1)]
+        g.fit(np.ascontiguousarray(other), fs, f_range, axis=axis, n_jobs=1)
+    finally:
+        if env is not None:
+            os.environ['BYCVERIF_POOL_LOG'] = env
+
+
+def _group_recompute(g, thr, nested):
+    """BycycleGroup.recompute_edges(r): every model's table becomes the functional edge recomputation of the table it held, thresholds lowered by r.
+    Returns (fingerprints after the call, fingerprints of the functional recomputation), shaped like g.models."""
+    from bycycle.burst.utils import recompute_edges
+    red = 0.1 if min(v for k, v in thr.items() if k.endswith('_threshold')) >= 0.1 else None
+    low = {k: (v - (red or 0) if k.endswith('_threshold') else v) for k, v in thr.items()}
+    rows = g.models if nested else [g.models]
+    expected = [[table_fp(recompute_edges(m.df_features, dict(low))) for m in row] for row in rows]
+    g.recompute_edges(red)
+    got = [[table_fp(m.df_features) for m in row] for row in (g.models if nested else [g.models])]
+    return (got, expected) if nested else (got[0], expected[0])
+
+
 def retry_on_timeout(fn):
     """A real pool that does not come back (fork under extreme load) is retried ONCE with fresh logs after its workers are terminated;
     a second timeout is a machinery failure (exit 2).  Never a verdict either way."""
@@ -213,7 +237,7 @@ def run_2d(sigs, fs, f_range, kwargs, n_jobs, progress, delays, logdir, via_grou
     keys = {sig_key(s): i + 1 for i, s in enumerate(sigs)}
     json.dump({sig_key(s): float(d) for s, d in zip(sigs, delays)}, open(os.path.join(logdir, 'delays.json'), 'w'))
     os.environ['BYCVERIF_POOL_LOG'] = logdir
-    raised, out, models = '', [], []
+    raised, out, models, rmodels, rexpected = '', [], [], [], []
     try:
         with warnings.catch_warnings():
             warnings.simplefilter('ignore')
@@ -229,9 +253,15 @@ def run_2d(sigs, fs, f_range, kwargs, n_jobs, progress, delays, logdir, via_grou
                         g.center_extrema = k0.get('center_extrema', 'peak')
                         g.thresholds = copy.deepcopy(k0['threshold_kwargs'])
                         g.return_samples = return_samples
+                    if len(sigs) % 3 != 1:
+                        _warm_up(g, sigs, fs, f_range, 0)
                     g.fit(sigs, fs, f_range, axis=0, n_jobs=n_jobs, progress=progress)
                     out = [table_fp(d) for d in g.df_features]
-                    models = [table_fp(m.df_features) if (m.sig is not None and np.array_equal(m.sig, sigs[i])) else -1 for i, m in enumerate(g.models)]
+                    models = [table_fp(m.df_features) if (i < len(sigs) and m.sig is not None and np.array_equal(m.sig, sigs[i])) else -1 for i, m in enumerate(g.models)]
+                    if len(g) != len(models) or [table_fp(m.df_features) for m in g] != [table_fp(g[i].df_features) for i in range(len(g))]:
+                        models = models + [-2]          # len / iteration / indexing of the group disagree with its models
+                    if models == out:
+                        rmodels, rexpected = _group_recompute(g, k0['threshold_kwargs'], False)
                 else:
                     dfs = compute_features_2d(sigs, fs, f_range, compute_features_kwargs=kwargs, axis=0, return_samples=return_samples, n_jobs=n_jobs, progress=progress)
                     out = [table_fp(d) for d in dfs]
@@ -242,7 +272,7 @@ def run_2d(sigs, fs, f_range, kwargs, n_jobs, progress, delays, logdir, via_grou
     finally:
         os.environ.pop('BYCVERIF_POOL_LOG', None)
     logs, realised = read_logs(logdir, keys)
-    return {'mode': '2d', 'T': len(sigs), 'n0': len(sigs), 'n1': 0, 'out': out, 'models': models, 'logs': logs or [[]], 'raised': raised,
+    return {'mode': '2d', 'T': len(sigs), 'n0': len(sigs), 'n1': 0, 'out': out, 'models': models, 'rmodels': rmodels, 'rexpected': rexpected, 'logs': logs or [[]], 'raised': raised,
             'check_schedule': bool(logs) and not raised}, realised
 
 
@@ -277,7 +307,7 @@ def run_3d(sigs, fs, f_range, kwargs, axis, n_jobs, delays, logdir, via_group=Fa
     keys = {sig_key(s): k + 1 for k, s in enumerate(tasks)}
     json.dump({sig_key(s): float(d) for s, d in zip(tasks, delays)}, open(os.path.join(logdir, 'delays.json'), 'w'))
     os.environ['BYCVERIF_POOL_LOG'] = logdir
-    raised, out, models = '', [], []
+    raised, out, models, rmodels, rexpected = '', [], [], [], []
     try:
         with warnings.catch_warnings():
             warnings.simplefilter('ignore')
@@ -289,9 +319,13 @@ def run_3d(sigs, fs, f_range, kwargs, axis, n_jobs, delays, logdir, via_group=Fa
                         g = BycycleGroup(center_extrema='trough' if kwargs.get('center_extrema', 'peak') == 'peak' else 'peak', thresholds={'min_n_cycles': 9})
                         g.center_extrema = kwargs.get('center_extrema', 'peak')
                         g.thresholds = copy.deepcopy(kwargs['threshold_kwargs'])
+                    if (n0 + 2 * n1) % 3 != 1:
+                        _warm_up(g, sigs, fs, f_range, axis)
                     g.fit(sigs, fs, f_range, axis=axis, n_jobs=n_jobs, progress=progress)
                     res = g.df_features
-                    models = [[table_fp(m.df_features) if np.array_equal(m.sig, sigs[i, j]) else -1 for j, m in enumerate(row)] for i, row in enumerate(g.models)]
+                    models = [[table_fp(m.df_features) if (i < n0 and j < n1 and np.array_equal(m.sig, sigs[i, j])) else -1 for j, m in enumerate(row)] for i, row in enumerate(g.models)]
+                    if models == [[table_fp(d) for d in row] for row in res]:
+                        rmodels, rexpected = _group_recompute(g, kwargs['threshold_kwargs'], True)
                 else:
                     res = compute_features_3d(sigs, fs, f_range, compute_features_kwargs=kwargs, axis=axis, n_jobs=n_jobs, progress=progress)
                 out = [[table_fp(d) for d in row] for row in res]
@@ -302,7 +336,7 @@ def run_3d(sigs, fs, f_range, kwargs, axis, n_jobs, delays, logdir, via_group=Fa
     finally:
         os.environ.pop('BYCVERIF_POOL_LOG', None)
     logs, realised = read_logs(logdir, keys)
-    return {'mode': mode, 'T': len(tasks), 'n0': n0, 'n1': n1, 'out': out, 'models': models, 'logs': logs or [[]], 'raised': raised,
+    return {'mode': mode, 'T': len(tasks), 'n0': n0, 'n1': n1, 'out': out, 'models': models, 'rmodels': rmodels, 'rexpected': rexpected, 'logs': logs or [[]], 'raised': raised,
             'check_schedule': bool(logs) and not raised}, realised
 
 
